@@ -254,7 +254,7 @@ def run(tier, only=None):
     rep = Report(PROP, tier, "PyBMC merged symbolic execution of validate.tree over all ordered tree shapes, node outcomes uninterpreted + z3 QF_BV")
     sd = common.seed()
     common.xs_enable(tier)
-    maxn = 5 if tier == "quick" else 7
+    maxn = 6 if tier == "quick" else 9
     all_shapes = [sh for n in range(1, maxn + 1) for sh in shapes(n)]
     jobs = [(sh, coll, sd) for sh in all_shapes for coll in (False, True)]
     jobs += [(sh, coll, sd, "dupids") for sh in all_shapes if _count(sh) <= 4 for coll in (False, True)]
